@@ -305,7 +305,10 @@ func (w *c01World) apply(op c01Op) bool {
 		if w.real {
 			return false
 		}
-		// run(): the control buffer is empty: processData until it reports empty, then flush
+		// run(): the control buffer is empty: processData until it reports empty;
+		// then, once per wake-up, if less than minBatchSize bytes are buffered:
+		// Gosched, poll the (still empty) buffer and call processData again; flush
+		gosched := true
 		for i := 0; ; i++ {
 			empty, err := w.l.processData()
 			if err != nil {
@@ -313,6 +316,12 @@ func (w *c01World) apply(op c01Op) bool {
 				break
 			}
 			if empty {
+				if gosched {
+					gosched = false
+					if w.l.framer.writer.offset < minBatchSize {
+						continue
+					}
+				}
 				w.l.framer.writer.Flush()
 				break
 			}
